@@ -85,7 +85,7 @@ FAMILIES = {
                    invariants=["Emit", "InvC16"],
                    tiers=dict(quick=dict(runs=[dict(constants={"MaxD": "= 1"}), dict(constants={"MaxD": "= 2"})]),
                               thorough=dict(runs=[dict(constants={"MaxD": "= 1"}), dict(constants={"MaxD": "= 2"})]))),
-    "Migrate": dict(module="MC_Migrate", spec="MSpec", constants=dict(BASE, NSlots="= 3"),
+    "Migrate": dict(module="MC_Migrate", spec="MSpec", proof="apalache_c17.sh", constants=dict(BASE, NSlots="= 3"),
                     invariants=["Emit", "InvC17"],
                     tiers=dict(quick=dict(runs=[dict(constants={"MaxD": "= 20", "Dup": "= FALSE"}),
                                                 dict(constants={"MaxD": "= 20", "Dup": "= TRUE"})]),
@@ -258,7 +258,9 @@ CLAIMS = {
                  "original name and that equal lineage errors are identified in every process, for every version assignment and "
                  "registration order, exhaustively; each behaviour is replayed on the real registries (installed per process "
                  "through the verif hook) and the recorded family, decoded type, Is results and duplicate rejection are "
-                 "validated", "DESIGN 8 C17"),
+                 "validated; in addition Apalache discharges an inductive invariant of the registry operator (function, "
+                 "idempotent family lookup, both names of every accepted rename share a family) for any number and order "
+                 "of registrations, the operator being proved equal to the explored one by a TLC ASSUME", "DESIGN 8 C17"),
     "C19": claim("independent model of hint/detail/link/key/tag aggregation; recorded accessor outputs must equal it",
                  "DESIGN 8 C19"),
 }
